@@ -148,6 +148,8 @@ type Frame struct {
 	incoming    []Edge
 	dryStack    []*Loop
 	defers      []*ssa.Defer
+	inPanicEdge bool
+	panicNoted  bool
 	parent      *Frame
 	freeVars    map[*ssa.FreeVar]*Value
 	dead        bool // current path ended (panic / no-return)
